@@ -2798,7 +2798,16 @@ impl<'de, 'e> de::Deserializer<'de> for YamlDeserializer<'de, 'e> {
                 if let Some(tag_name) = simple_tagged_enum_name(raw_tag, tag) {
                     tagged_enum = Some((tag_name, *location));
                 }
-                if self.cfg.no_schema && *tag != SfTag::String && maybe_not_string(value, style) {
+                // (`no_schema` is about a scalar that names the variant; behind a tag that
+                // selects the variant the scalar is the payload, judged by the payload's type)
+                let tag_selects_variant = tagged_enum
+                    .as_ref()
+                    .is_some_and(|(name, _)| _variants.contains(&name.as_str()));
+                if self.cfg.no_schema
+                    && !tag_selects_variant
+                    && *tag != SfTag::String
+                    && maybe_not_string(value, style)
+                {
                     let (v, _t, loc) = self.take_scalar_event()?;
                     return Err(Error::quoting_required(&v).with_location(loc));
                 }
